@@ -130,10 +130,10 @@ func VH_C15_rotate() {
 	vObserve("outlen", len(got))
 }
 
-//verif:harness prop=C15 quick=2 thorough=4 merge=concrete timeout=1500
-//verif:bounds gts split with locator `gene`: linear (and thorough: circular) record of 5 symbolic residues with 2 genes (either strand, symbolic coordinates): the pieces concatenate back to the input (circular: to the input re-origined at a cut)
+//verif:harness prop=C15 quick=3 thorough=4 merge=concrete timeout=1500
+//verif:bounds gts split with locator `gene`: linear and circular record of 5 symbolic residues with 2 genes (either strand, symbolic coordinates): the pieces concatenate back to the input (circular: to the input re-origined at a cut)
 func VH_C15_split() {
-	sh := vShard(2 + 2*vTier())
+	sh := vShard(3 + vTier())
 	L := 5
 	circular := sh >= 2
 	gb, data, genes := vGenRecord(L, 2, circular)
